@@ -19,7 +19,9 @@ def entries(F):
     return sorted(out)
 
 
-ALLOWED_CALLS = ("::clone", "parse::Parser::cursor", "::unwrap_or", "::unwrap_or_else", "::Deref>::deref")
+# logos' SpannedIter yields (token, span of that token): taking the span from its `next()` in an explicit loop is the same
+# source as the closure parameter of `.spanned().map(|(tok, span)| ..)`
+ALLOWED_CALLS = ("::clone", "parse::Parser::cursor", "::unwrap_or", "::unwrap_or_else", "::Deref>::deref", "<logos::SpannedIter<")
 
 
 def _bad_nodes(e, acc, depth=0):
@@ -36,6 +38,8 @@ def _bad_nodes(e, acc, depth=0):
         if not any(c.endswith(a) or a in c for a in ALLOWED_CALLS):
             acc.append("span computed by call to %s" % c)
             return
+        if "<logos::SpannedIter<" in c:
+            return                                  # a source of token spans: what the iterator is built from is not the span
     elif k == "const":
         acc.append("constant %r" % (e[1],))
     for x in e[1:]:
